@@ -369,15 +369,7 @@ def extract(src):
         v['sdc_callback_none'] = dfl['callback'] is None
         if not v['sdc_callback_none']:
             raise ValueError('callback default is not None')
-        # options = DefaultCSRFOptions(k=k for each of the seven arguments)
-        calls = [c for c in _walk(fn, ast.Call) if isinstance(c.func, ast.Name) and c.func.id == 'DefaultCSRFOptions']
-        if len(calls) != 1 or calls[0].args or sorted(k.arg for k in calls[0].keywords) != sorted(names[1:]) \
-                or any(not (isinstance(k.value, ast.Name) and k.value.id == k.arg) for k in calls[0].keywords):
-            raise ValueError('DefaultCSRFOptions(...) call')
-        regs = [c for c in _walk(fn, ast.Call) if isinstance(c.func, ast.Attribute) and c.func.attr == 'registerUtility']
-        if len(regs) != 1 or ast.dump(regs[0]) != ast.dump(ast.parse(
-                'self.registry.registerUtility(options, IDefaultCSRFOptions)').body[0].value):
-            raise ValueError('registerUtility call')
+        # (the flow of the arguments into DefaultCSRFOptions and the registration are regenerated: translate_cfg.py)
     except Exception as e:
         problems.append('set_default_csrf_options defaults not recognised: %r' % (e,))
 
